@@ -4,20 +4,21 @@
 # scratch copy of /repo: patch applies, repository suite still passes, demo passes on the clean tree and fails on the
 # changed tree; then runs our quick checks against the changed tree and stores everything in /verif/seeded/<Cxx>-<A|B>/.
 id=$1; v=$2; shift 2; extra="$@"
-src=/tmp/seed/$id/seed_out/$v
+src=${SEED_SRC:-/tmp/seed/$id/seed_out/$v}      # SEED_SRC: take the deliverables from another directory (second wave); <A|B> is then the name suffix
+srcsub=$(basename $src)
 dst=/verif/seeded/$id-$v
-[ -f $src/patch.diff ] || src=$dst
+[ -f $src/patch.diff ] || { src=$dst; srcsub=$v; }
 [ -f $src/patch.diff ] || { echo "no patch in $src"; exit 2; }
 S=/tmp/vf_seed.$$; rm -rf $S; mkdir -p $S
 git -C /repo archive HEAD | tar -x -C $S
-mkdir -p $S/seed_out/$v; cp $src/demo.* $src/build.sh $S/seed_out/$v/ 2>/dev/null
+mkdir -p $S/seed_out/$srcsub; cp $src/demo.* $src/build.sh $S/seed_out/$srcsub/ 2>/dev/null
 # some agents wrote absolute paths of their own worktree into build.sh: make them relative to the tree under test
-sed -i "s#/tmp/seed/$id/##g" $S/seed_out/$v/build.sh
+sed -i -E "s#/tmp/seed2?/$id/##g" $S/seed_out/$srcsub/build.sh
 # demo on the clean tree
-( cd $S && bash seed_out/$v/build.sh > $S/demo_clean.out 2>&1 ); clean_rc=$?
+( cd $S && bash seed_out/$srcsub/build.sh > $S/demo_clean.out 2>&1 ); clean_rc=$?
 ( cd $S && git init -q . && git apply --whitespace=nowarn $src/patch.diff ) || { echo "patch does not apply"; rm -rf $S; exit 2; }
 suite=$(/verif/tools/baseline.sh $S /tmp/vf_seed_bld.$$ | tail -1)
-( cd $S && bash seed_out/$v/build.sh > $S/demo_mut.out 2>&1 ); mut_rc=$?
+( cd $S && bash seed_out/$srcsub/build.sh > $S/demo_mut.out 2>&1 ); mut_rc=$?
 echo "$id-$v: suite: $suite | demo clean rc=$clean_rc, changed rc=$mut_rc"
 mkdir -p /tmp/vf_ev.$$ /tmp/vf_bld.$$; export VERIF_EVIDENCE_DIR=/tmp/vf_ev.$$ VERIF_BUILD=/tmp/vf_bld.$$
 results=""
@@ -29,7 +30,8 @@ for p in $id $extra; do
 done
 rm -rf /tmp/vf_ev.$$ /tmp/vf_bld.$$
 mkdir -p $dst; [ "$src" = "$dst" ] || cp $src/patch.diff $src/demo.* $src/build.sh $src/NOTES.md $dst/ 2>/dev/null
-sed -i "s#/tmp/seed/$id/##g" $dst/build.sh
+sed -i -E "s#/tmp/seed2?/$id/##g" $dst/build.sh
+[ "$srcsub" = "$v" ] || sed -i "s#seed_out/$srcsub/#seed_out/$v/#g" $dst/build.sh
 python3 - "$id" "$v" "$dst" "$suite" "$clean_rc" "$mut_rc" "${results%,}" "$extra" <<'PYEOF'
 import json, sys, re, subprocess
 pid, v, dst, suite, clean_rc, mut_rc, results, extra = sys.argv[1:9]
